@@ -139,9 +139,31 @@ def run(ctx):
         ctx.ob('C35-ADOPT.adopted-cache-takes-the-sessions-transaction-mode', pc, a_.ast, ok,
                '' if ok else 'the cache is attached to the db_session on a path that does not merge db_session.immediate into cache.immediate: a serializable/immediate session that '
                'adopts a leftover cache runs its reads in autocommit mode and takes no lock', node=a_.ast, expected='cache.immediate = cache.immediate or db_session.immediate next to the adoption')
+    # ---------------------------------------------------------------- FLAGS
+    # a session that is not optimistic sends no optimistic checks with its UPDATEs, so it must hold the write lock from its first statement: whatever
+    # value makes db_session.optimistic false also makes db_session.immediate true.  The two defining expressions of DBSessionContextManager.__init__ are
+    # evaluated (q.concrete_eval) for optimistic in {True, False, 0, None, ''} x serializable in {True, False}, immediate = ddl = False
+    from ..q import concrete_eval, Unknown
+    init = repo.fn(CORE, 'DBSessionContextManager.__init__')
+    defs_ = {}
+    for st in walk_no_nested(init.node):
+        if isinstance(st, ast.Assign) and len(st.targets) == 1 and isinstance(st.targets[0], ast.Attribute) and st.targets[0].attr in ('immediate', 'optimistic') and dotted(st.targets[0].value) == init.recv:
+            defs_[st.targets[0].attr] = st
+    ctx.need(set(defs_) == {'immediate', 'optimistic'}, 'C35-FLAGS: the definitions of db_session.immediate / .optimistic were not found')
+    wrong = []
+    for opt in (True, False, 0, None, ''):
+        for ser in (True, False):
+            env = {'optimistic': opt, 'serializable': ser, 'immediate': False, 'ddl': False}
+            try: o, i = concrete_eval(defs_['optimistic'].value, env), concrete_eval(defs_['immediate'].value, env)
+            except Unknown: wrong.append('unreadable definition'); break
+            if not o and not i: wrong.append('optimistic=%r serializable=%r -> not optimistic and not immediate' % (opt, ser))
+    ctx.ob('C35-FLAGS.non-optimistic-session-is-immediate', init, defs_['immediate'], not wrong,
+           '' if not wrong else 'a session can be neither optimistic nor immediate (%s): it reads without the write lock and then overwrites without any check, so a concurrent '
+           'locked update is lost' % '; '.join(wrong[:3]), node=defs_['immediate'])
 
 
 MUTANTS = [
+    dict(id='C35-flags', file='pony/orm/core.py', fn='DBSessionContextManager.__init__', old="        db_session.immediate = immediate or ddl or serializable or not optimistic", new="        db_session.immediate = immediate or ddl or serializable or optimistic is False", expect='C35-FLAGS'),
     dict(id='C35-a1', file='pony/orm/core.py', fn='SessionCache.prepare_connection_for_query_execution', old="            cache.db_session = db_session\n            cache.immediate = cache.immediate or db_session.immediate\n", new="            cache.db_session = db_session\n", expect='C35-ADOPT'),
     dict(id='C35-m1', file='pony/orm/core.py', fn='EntityMeta._find_in_cache_', old='                return None, unique  # object is found, but it is not locked',
          new="                if obj._status_ not in ('inserted', 'updated'):\n                    return None, unique\n                cache.for_update.add(obj)", expect='C35-LOCKSET'),
